@@ -6,7 +6,7 @@
     Layer L2 (this file): channel isolation (C15), transparency of non-contributing messages
     (C16) and reset-is-new (C17) are proved once for [gstep], for any one-channel machine. *)
 From Verif Require Import Base.Prelude Base.Sweep Model.ShortMsg Model.PerChannel
-  Spec.MidiTable Proofs.BitFacts Proofs.ShortMsgFacts.
+  Spec.MidiTable Spec.ScannerSpec Proofs.BitFacts Proofs.ShortMsgFacts.
 
 Section Generic.
   Variables (St Out : Type).
@@ -72,22 +72,6 @@ Section Generic.
         (now2, st2, out :: outs)
     end.
 
-  (** which operations of an interleaved stream concern channel [c]: its own feeds and polls,
-      every reset, and the passage of time *)
-  Definition relevant (c : N) (o : sop) : bool :=
-    match o with
-    | OFeed b => optN_eqb (channel_table (fst (fst b))) (Some c)
-    | OPoll c' => N.eqb c' c
-    | OReset | OTick _ => true
-    end.
-
-  (** outputs of the interleaved run at the operations that concern [c] *)
-  Fixpoint outs_on (c : N) (h : list sop) (outs : list Out) : list Out :=
-    match h, outs with
-    | o :: h', x :: outs' => if relevant c o then x :: outs_on c h' outs' else outs_on c h' outs'
-    | _, _ => []
-    end.
-
   Lemma gstep_length now s o : length (snd (fst (gstep now s o))) = length s.
   Proof.
     destruct o as [b|c| |dt]; cbn [gstep].
@@ -133,7 +117,7 @@ Section Generic.
     nth_error s (N.to_nat c) = Some st ->
     let '(now2, s2, outs) := grun now s h in
     let '(now2', st2, outs') := run1 c now st (filter (relevant c) h) in
-    now2 = now2' /\ nth_error s2 (N.to_nat c) = Some st2 /\ outs_on c h outs = outs'.
+    now2 = now2' /\ nth_error s2 (N.to_nat c) = Some st2 /\ outs_on Out c h outs = outs'.
   Proof.
     intros Hc. induction h as [|o h IH]; intros now s st Hst.
     - cbn. auto.
